@@ -786,53 +786,7 @@ func checkResponseTable(c *Ctx, parse *ssa.Function, cmdOf map[string]string) {
 		R.Fail("C03.txn", "rtmp|register", "?", "no function registers requests in Protocol.input.transactions", nil)
 		return
 	}
-	// the key used to register and to match is the transaction id itself: no conversion that can map two ids onto one
-	// (a float64 id cut to an integer would match 2.5 with 2, or wrap)
-	nKeys := 0
-	lossy := ""
-	for _, fn := range P.ModuleFuncs("rtmp") {
-		core.EachInstr(fn, func(in ssa.Instruction) {
-			var m, k ssa.Value
-			switch x := in.(type) {
-			case *ssa.MapUpdate:
-				m, k = x.Map, x.Key
-			case *ssa.Lookup:
-				m, k = x.X, x.Index
-			case *ssa.Call:
-				if b, ok := x.Call.Value.(*ssa.Builtin); ok && b.Name() == "delete" {
-					m, k = x.Call.Args[0], x.Call.Args[1]
-				}
-			}
-			if m == nil || !strings.HasSuffix(core.TypedPath(m), "input.transactions") {
-				return
-			}
-			nKeys++
-			// the table is keyed by the id's own type (a narrower key type means a conversion somewhere)
-			if mt, ok := m.Type().Underlying().(*types.Map); ok && !strings.HasSuffix(types.TypeString(mt.Key(), nil), "amf0.Number") {
-				lossy = fmt.Sprintf("the transaction table of %s is keyed by %s, not by the AMF0 number the id is", core.QualName(fn), mt.Key())
-			}
-			// the key may be computed by a helper (transactionKey(tid)): look at the expression it stands for
-			res := core.NewResolver(false)
-			for v, d := k, 0; d < 6; d++ {
-				if rv := res.V(v); rv != nil {
-					if _, isCv := rv.(*ssa.Convert); isCv || rv != core.StripConv(v) {
-						v = rv
-					}
-				}
-				switch y := v.(type) {
-				case *ssa.ChangeType:
-					v = y.X
-					continue
-				case *ssa.Convert:
-					lossy = fmt.Sprintf("%s at %s converts the id from %s to %s", core.QualName(fn), P.InstrPos(in), y.X.Type(), y.Type())
-				}
-				break
-			}
-		})
-	}
-	R.Check(lossy == "" && nKeys >= 3, "C03.txn", "rtmp|transaction-key|is-the-id-itself", P.Pos(reg.Pos()),
-		fmt.Sprintf("requests are registered and responses matched (%d key uses) under the transaction id itself", nKeys),
-		"the transaction table is keyed by a converted id ("+lossy+"): two different ids can match one request, so a response is typed by a request it does not answer", nil)
+	checkTxnKey(c, "C03.txn", reg)
 	// the packet types whose transactions are registered: the types the packet is tested for (a type switch and a chain
 	// of comma-ok assertions are the same instructions)
 	var regTypes []*types.Named
@@ -1228,4 +1182,56 @@ func derivesFrom(v ssa.Value, call *ssa.Call) bool {
 		}
 	}
 	return v == ssa.Value(call)
+}
+
+// checkTxnKey: the key used to register and to match a request is the transaction id itself (shared by C03 and C04).
+func checkTxnKey(c *Ctx, rule string, reg *ssa.Function) {
+	P, R := c.P, c.R
+	// the key used to register and to match is the transaction id itself: no conversion that can map two ids onto one
+	// (a float64 id cut to an integer would match 2.5 with 2, or wrap)
+	nKeys := 0
+	lossy := ""
+	for _, fn := range P.ModuleFuncs("rtmp") {
+		core.EachInstr(fn, func(in ssa.Instruction) {
+			var m, k ssa.Value
+			switch x := in.(type) {
+			case *ssa.MapUpdate:
+				m, k = x.Map, x.Key
+			case *ssa.Lookup:
+				m, k = x.X, x.Index
+			case *ssa.Call:
+				if b, ok := x.Call.Value.(*ssa.Builtin); ok && b.Name() == "delete" {
+					m, k = x.Call.Args[0], x.Call.Args[1]
+				}
+			}
+			if m == nil || !strings.HasSuffix(core.TypedPath(m), "input.transactions") {
+				return
+			}
+			nKeys++
+			// the table is keyed by the id's own type (a narrower key type means a conversion somewhere)
+			if mt, ok := m.Type().Underlying().(*types.Map); ok && !strings.HasSuffix(types.TypeString(mt.Key(), nil), "amf0.Number") {
+				lossy = fmt.Sprintf("the transaction table of %s is keyed by %s, not by the AMF0 number the id is", core.QualName(fn), mt.Key())
+			}
+			// the key may be computed by a helper (transactionKey(tid)): look at the expression it stands for
+			res := core.NewResolver(false)
+			for v, d := k, 0; d < 6; d++ {
+				if rv := res.V(v); rv != nil {
+					if _, isCv := rv.(*ssa.Convert); isCv || rv != core.StripConv(v) {
+						v = rv
+					}
+				}
+				switch y := v.(type) {
+				case *ssa.ChangeType:
+					v = y.X
+					continue
+				case *ssa.Convert:
+					lossy = fmt.Sprintf("%s at %s converts the id from %s to %s", core.QualName(fn), P.InstrPos(in), y.X.Type(), y.Type())
+				}
+				break
+			}
+		})
+	}
+	R.Check(lossy == "" && nKeys >= 3, rule, "rtmp|transaction-key|is-the-id-itself", P.Pos(reg.Pos()),
+		fmt.Sprintf("requests are registered and responses matched (%d key uses) under the transaction id itself", nKeys),
+		"the transaction table is keyed by a converted id ("+lossy+"): two different ids can match one request, so a response is typed by a request it does not answer", nil)
 }
